@@ -494,6 +494,14 @@ def reported_paths(ctx, n):
             etext, ewant, doc = embedded_rules(doc)
             rules += etext
             iwant = dict(iwant, **ewant)           # same oracle: every unresolved point of the rule is the named pointer
+        if 'ZzIdx' not in doc:
+            # explicit indices that are out of bounds (bracket and dotted form, a list of structs, of scalars, of lists, behind [*]): the
+            # point reached is the list that is too short
+            doc = dict(doc)
+            doc['ZzIdx'] = {'l': [{'c': 1}, {'c': 2}], 's': [5], 'n': [[1, 2], [3]]}
+            rules += ('rule oob0 {\n  ZzIdx.l[5].c == 987654\n}\nrule oob1 {\n  ZzIdx.l.7 exists\n}\nrule oob2 {\n  ZzIdx.s[1] == 987654\n}\n'
+                      'rule oob3 {\n  ZzIdx.n[0][2] == 987654\n}\nrule oob4 {\n  ZzIdx.n[*][5] == 987654\n}\n')
+            iwant = dict(iwant, oob0='/ZzIdx/l', oob1='/ZzIdx/l', oob2='/ZzIdx/s', oob3='/ZzIdx/n/0')
         name, em = EMITTERS[k % len(EMITTERS)]
         text, pos = em(rng, doc)
         d = os.path.join(ctx.wd, 'q%d' % k)
@@ -502,7 +510,7 @@ def reported_paths(ctx, n):
         scen.append({'rules': rules, 'doc': doc, 'text': text, 'pos': pos, 'format': name, 'alias': awant, 'interp': iwant})
         jobs.append({'args': ['validate', '-r', 'r.guard', '-d', fn, '--structured', '-o', 'json', '-S', 'none'], 'cwd': d})
     res = e2e.run_many(jobs)
-    npaths, nun, nloc, nalias = 0, 0, 0, 0
+    npaths, nun, nloc, nalias, noob = 0, 0, 0, 0, 0
     ninterp = 0
     nskipped = 0
     for sc, (code, so, se) in zip(scen, res):
@@ -599,6 +607,14 @@ def reported_paths(ctx, n):
                 if not ok or not same(val, u['traversed_to']['value']):
                     ctx.failing('the point reported as reached (%r) does not resolve to the reported value' % p, dict(info, unresolved=u), found=True)
                     continue
+                # an explicit index that is out of bounds: the point reached is the list itself (the path the reason names), and the list
+                # is too short for the index
+                mo = re.match(r'Array Index out of bounds for path = (/[^\[\s]*|)(?:\[L:\d+,C:\d+\])? on index = (\d+) ', u.get('reason') or '')
+                if mo:
+                    noob += 1
+                    if p != mo.group(1) or not isinstance(val, list) or len(val) > int(mo.group(2)):
+                        ctx.failing('index %s out of bounds at %r: the point reported as reached is %r (%s)' % (mo.group(2), mo.group(1), p, 'a list of %d' % len(val) if isinstance(val, list) else type(val).__name__),
+                                    dict(info, unresolved={k3: (str(v3)[:300]) for k3, v3 in u.items()}), found=True)
                 seg = first_segment(u.get('remaining_query') or '')
                 if seg and seg not in ('*', '_') and not seg.startswith('%') and 'filter' not in (u.get('remaining_query') or ''):
                     exists = (isinstance(val, dict) and seg in val) or (isinstance(val, list) and re.fullmatch(r'-?\d+', seg) and abs(int(seg)) < len(val))
@@ -613,6 +629,7 @@ def reported_paths(ctx, n):
                         ctx.failing('message location of %s is L:%d,C:%d, the scalar starts at L:%d,C:%d' % (p, l, c, sc['pos'][p][0], sc['pos'][p][1]), dict(info, pointer=p), found=True)
     ctx.coverage['reported_paths_checked'] = npaths
     ctx.coverage['unresolved_checks_checked'] = nun
+    ctx.coverage['index_out_of_bounds_checked'] = noob
     ctx.coverage['message_locations_checked'] = nloc
     ctx.coverage['case_alias_queries_checked'] = nalias
     ctx.coverage['variable_indexed_structs_checked'] = ninterp
